@@ -912,7 +912,6 @@ package fsm
 //@   callsite AccountAdd requires[tooutput] resultof(GetValidator).Output != nil ==> addrOf(callee.address) == bytes(resultof(GetValidator).Output) && callee.amountToAdd == resultof(GetValidator).StakedAmount
 //@   ensures[conserve] isnil(result) ==> drift(s) == old(drift(s)) && supTotal(s) == old(supTotal(s)) && poolBal() == old(poolBal())
 
-
 // byzantine-evidence handling (non-signer settlement, non-signer counting, double-signer slashing) only burns
 //@ func (*StateMachine).HandleByzantine
 //@   ensures[conserve] err == nil ==> drift(s) == old(drift(s)) && acctBal() == old(acctBal()) && poolBal() == old(poolBal())
